@@ -18,6 +18,17 @@ sys.path[:] = [p for p in sys.path if os.path.abspath(p or ".") != HERE]
 
 
 def main():
+    if len(sys.argv) > 1 and sys.argv[1] == "node":
+        # engine B API node: line-delimited JSON-RPC on stdin/stdout until "quit"
+        faulthandler.enable()
+        from sim import boot
+
+        boot.setup(os.environ["VERIF_TREE"])
+        boot.preimport(sys.version_info < (3, 11))
+        from sim import node
+
+        node.serve({}, boot.TREE)
+        return 0
     job = json.loads(sys.stdin.read())
     faulthandler.enable()
     faulthandler.dump_traceback_later(job.get("timeout_s", 600), exit=True)
@@ -48,12 +59,6 @@ def main():
             from sim import engine_c
 
             out.update(engine_c.run_job(job, boot.TREE))
-        elif engine == "node":
-            boot.preimport(sys.version_info < (3, 11))
-            from sim import node
-
-            node.serve(job, boot.TREE)
-            return 0
         else:
             raise ValueError("unknown engine %r" % engine)
     except Exception:
